@@ -214,3 +214,43 @@ Definition two_level_ok (pfnames : list str) (lib : list tpl) (name : str) (args
   match classify_pf pfnames (canon_pf pfnames name) with PfNone => true | _ => false end &&
   forallb (nested_arg_ok pfnames lib name) args &&
   match find_tpl lib name with Some t => body_calls_ok pfnames lib name (t_body t) | None => true end.
+
+(** ... and with parameter references inside the arguments of the calls in the body.  The parameters are substituted into
+    the argument texts first (and one trailing line break of each argument is dropped); only then is the inner call
+    made with these texts - so it is the substituted text that is split at "=" into name and value (the known finding
+    c04:substituted-value-with-equals-is-resplit). *)
+Fixpoint body_subst_args (ht : argmap) (e : enc) : enc :=
+  match e with
+  | [] => []
+  | A (k :: more) :: r =>
+    (match am_get ht (param_key k) with
+     | Some v => drop_last_nl v
+     | None => match more with
+               | d :: _ => d
+               | [] => unexpanded_arg [chars (show_key (param_key k))]
+               end
+     end) ++ body_subst_args ht r
+  | T args :: r => T (map (fun a => drop_last_nl (code_subst ht a)) args) :: body_subst_args ht r
+  | i :: r => i :: body_subst_args ht r
+  end.
+Fixpoint body_params_ok (pfnames : list str) (lib : list tpl) (outer : str) (e : enc) : bool :=
+  match e with
+  | [] => true
+  | Ch _ :: r => body_params_ok pfnames lib outer r
+  | A [k] :: r => plain k && body_params_ok pfnames lib outer r
+  | A [k; d] :: r => plain k && plain d && body_params_ok pfnames lib outer r
+  | T (n :: args) :: r =>
+      plain n && flat_ok pfnames lib (codes n) [] && forallb flat_body args &&
+      negb (str_eqb (codes n) outer) && body_params_ok pfnames lib outer r
+  | _ => false
+  end.
+Definition body_params_result (lib : list tpl) (name : str) (args : list enc) : enc :=
+  match find_tpl lib name with
+  | None => chars (missing_tpl name)
+  | Some t => add_newline (page_result lib (body_subst_args (bind_nested lib args 1 []) (t_body t)))
+  end.
+Definition body_params_call_ok (pfnames : list str) (lib : list tpl) (name : str) (args : list enc) : bool :=
+  str_eqb (codes (strip_i (chars name))) name && negb (existsb (N.eqb 58) name) &&
+  match classify_pf pfnames (canon_pf pfnames name) with PfNone => true | _ => false end &&
+  forallb (nested_arg_ok pfnames lib name) args &&
+  match find_tpl lib name with Some t => body_params_ok pfnames lib name (t_body t) | None => true end.
